@@ -3,7 +3,7 @@ import json, os
 HERE = os.path.dirname(os.path.dirname(os.path.abspath(__file__)))
 ALL = [json.loads(l)['id'] for l in open(os.path.join(HERE, 'properties.jsonl'))]
 
-HOOK_COMMITS = []
+HOOK_COMMITS = ['8c8459b']
 
 CHECKS = {
  'C12': dict(
@@ -58,6 +58,18 @@ CHECKS = {
   text='For generated signals and options: every cap k=1..K+2 of the classic and masked sift must be the bit-identical prefix of the uncapped run; every column must equal single (masked) IMF extraction of the externally computed residual; all five variants are run with caps below / at / above the attainable IMF count and must return finite [samples x <=cap] arrays with their documented extras.',
   note='Peel mismatches above 1e-8 are only reported when the reference model shows the extraction well conditioned; ensembles use nprocesses=1 with a seeded RNG.',
   technique='property-based testing with differential (peel) and metamorphic (cap-prefix) oracles'),
+ 'C06': dict(
+  text='Complete enumeration of the finite grid variant x IMF options x interpolation method x extrema options x delivery route (keyword dicts, SiftConfig unpacking, get_func, functools.partial) x nprocesses; the guarded in-tree trace shows what get_next_imf / interp_envelope / get_padded_extrema actually received in every process (workers included) and must equal what was supplied; the four routes must give identical outputs.',
+  note='Observes what each stage receives (EMD_VERIF_TRACE hook); that a stage uses what it receives is C04/C05. The grid is finite and enumerated completely (720 quick / 1440 thorough points x 4 routes).',
+  technique='exhaustive configuration enumeration with a trace-based oracle and route-differential comparison'),
+ 'C07': dict(
+  text='Hypothesis-generated signals x mask frequency sources x amplitude modes x step factors x nphases 1..8 x nprocesses 1..8 compared with an executable specification of the masking rule assembled from single-IMF extractions (mean over phases of extraction of signal+mask minus mask; frequency ladder; amplitude rule; stop rules), feedback of returned mask frequencies, zero-amplitude reduction and bit-identity across worker counts (worker pids read from the trace).',
+  note='get_next_imf is the trusted building block (C04). OS scheduling is sampled by repetition, not controlled.',
+  technique='property-based differential testing against an executable specification; schedule sampling over worker counts'),
+ 'C08': dict(
+  text='Hypothesis-generated grid nensembles 1..8 x nprocesses 1..8 x noise mode x noise level x cap for ensemble_sift and complete_ensemble_sift with a seeded RNG; from the guarded trace of every member (index, pid, the noise actually added): members pairwise distinct and uncorrelated, output equal to the member mean recomputed in the harness from the traced noise, zero noise equal to the classic sift, every complete-ensemble stage checked the same way.',
+  note='Job-to-worker assignments are those the pool produces (sampled, reported in the evidence); classic sift is the trusted building block.',
+  technique='property-based testing with a trace-based oracle (noise digests, recomputed member means); schedule sampling'),
 }
 
 NOT_APPLICABLE = [{'property_id': p, 'reason': 'check not built yet in this round (planned with the same technique, see DESIGN.md section 2)'}
